@@ -66,7 +66,9 @@ def run(case):
                 # (an EMPTY `labels` stays a list: the code tests its truthiness, so [] means "all labels" while an
                 # empty iterator means "none"; DESIGN 4/C10 excludes the empty case from "when given")
                 arg = [ls, tuple(ls), set(ls), dict.fromkeys(ls).keys(), iter(ls), (x for x in ls)][how] if ls else ls
+                given_ = set(arg) if isinstance(arg, set) else None
                 r = a.get_overlap(labels=arg)
+                assert given_ is None or arg == given_, "get_overlap(labels) edited the caller's set of labels: %r -> %r" % (given_, arg)
             return {"overlap": segs_of(tb, r)}
         t = mk_tl(tb, case["segs"])
         out = {"segmentation": segs_of(tb, t.segmentation()), "overlap": segs_of(tb, t.get_overlap())}
